@@ -3,9 +3,11 @@ import SemVerif.Spec.Traverse
 /-!
 # Spec/Typed — `TypedStack`: the recorded types of a function stack are mutually consistent (C04)
 
-Mentions only the stack, the function's declared result type, the global tables of the same run
-and (for extension registers) the leaf types of the source.  F7 reading: register `r+1` after a
-call / field read writing `r` carries that instruction's type.
+Mentions only the stack, the function's declared result type and the global tables of the same run.
+F7 reading: register `r+1` after a call / field read writing `r` carries that instruction's type.
+The scan is split into the environment it maintains (`tyStepEnv`: the type each register was
+produced with, the value records declared so far) and the checks it makes on every instruction
+(`tyStepBad`, a list of structured tags); `typedStack` numbers the failing checks by position.
 -/
 namespace SemVerif
 
@@ -33,56 +35,109 @@ declaration of its internal name (with C12 — internal names are unique — sim
 def TyEnv.declOk (e : TyEnv) (v : Value) : Bool :=
   (e.decls.find? fun d => d.innerName == v.innerName) == some v
 
-def typedStep (funcs : List (Name × Func)) (consts : List (Name × ConstSem)) (resTy : Ty)
-    (exts : List (Nat × PrimTy)) (e : TyEnv) (i : Instr) (pos : Nat) : TyEnv × List String :=
-  let bad (c : Bool) (msg : String) : List String := if c then [] else [s!"pos{pos}:{msg}"]
-  match i with
-  | .fnArg v _ => ({ e with decls := v :: e.decls }, [])
-  | .exprValue v r =>
-    ({ e with regs := (r, v.ty) :: e.regs }, bad (e.declOk v) "read-differs-from-declaration")
-  | .exprConst c r =>
-    ({ e with regs := (r, c.ty) :: e.regs }, bad (assocGet c.name consts == some c) "constant-differs-from-global-table")
-  | .exprStructValue v idx r =>
-    match v.ty with
-    | .struct _ attrs =>
-      match attrs.byIndex idx with
-      | some t => ({ e with regs := (r + 1, t) :: (r, t) :: e.regs }, bad (e.declOk v) "field-read-differs-from-declaration")
-      | none => (e, [s!"pos{pos}:field-index-not-in-struct-type"])
-    | _ => (e, [s!"pos{pos}:field-read-of-non-struct"])
-  | .exprOp _ l r reg =>
-    ({ e with regs := (reg, r.ty) :: e.regs },
-     bad (operandOk e l) "left-operand-type" ++ bad (operandOk e r) "right-operand-type" ++ bad (l.ty == r.ty) "operation-operands-differ")
-  | .call f ps reg =>
-    ({ e with regs := (reg + 1, f.ty) :: (reg, f.ty) :: e.regs },
-     bad (assocGet f.name funcs == some f) "callee-differs-from-global-table" ++
-     bad (ps.length == f.params.length) "argument-count" ++
-     bad ((ps.zip f.params).all fun (a, t) => a.ty == t) "argument-type" ++
-     bad (ps.all (operandOk e)) "argument-operand-type")
-  | .ext _ t reg => ({ e with regs := (reg, .prim t) :: e.regs }, [])
-  | .letBinding v x =>
-    ({ e with decls := v :: e.decls }, bad (operandOk e x) "initialiser-operand-type" ++ bad (v.ty == x.ty) "let-type-differs-from-initialiser")
-  | .binding v x =>
-    (e, bad (operandOk e x) "assigned-operand-type" ++ bad (v.ty == x.ty) "assignment-type" ++ bad v.mutable "assignment-to-immutable" ++
-        bad (e.declOk v) "assignment-differs-from-declaration")
-  | .condExpr l r _ reg =>
-    ({ e with regs := (reg, .prim .bool) :: e.regs },
-     bad (operandOk e l) "left-side-type" ++ bad (operandOk e r) "right-side-type" ++ bad (l.ty == r.ty) "comparison-sides-differ" ++
-     bad l.ty.isPrim "comparison-of-non-primitive")
-  | .logicCond _ _ _ reg => ({ e with regs := (reg, .prim .bool) :: e.regs }, [])
-  | .ifCondExpr x _ _ => (e, bad (operandOk e x) "condition-operand-type")
-  | .fnReturn x | .fnReturnWithLabel x | .jumpFnReturn x =>
-    (e, bad (operandOk e x) "return-operand-type" ++ bad (x.ty == resTy) "return-type-differs-from-result-type")
-  | _ => (e, [])
+/-- the type a field read produces: the attribute of the value's struct type with that index -/
+def fieldTy (v : Value) (idx : Nat) : Option Ty :=
+  match v.ty with
+  | .struct _ attrs => attrs.byIndex idx
+  | _ => none
 
-def typedGo (funcs : List (Name × Func)) (consts : List (Name × ConstSem)) (resTy : Ty) (exts : List (Nat × PrimTy)) :
-    List Instr → TyEnv → Nat → List String
+/-- what the scan remembers -/
+def tyStepEnv (e : TyEnv) (i : Instr) : TyEnv :=
+  match i with
+  | .fnArg v _ => { e with decls := v :: e.decls }
+  | .exprValue v r => { e with regs := (r, v.ty) :: e.regs }
+  | .exprConst c r => { e with regs := (r, c.ty) :: e.regs }
+  | .exprStructValue v idx r =>
+    match fieldTy v idx with
+    | some t => { e with regs := (r + 1, t) :: (r, t) :: e.regs }
+    | none => e
+  | .exprOp _ _ r reg => { e with regs := (reg, r.ty) :: e.regs }
+  | .call f _ reg => { e with regs := (reg + 1, f.ty) :: (reg, f.ty) :: e.regs }
+  | .ext _ t reg => { e with regs := (reg, .prim t) :: e.regs }
+  | .letBinding v _ => { e with decls := v :: e.decls }
+  | .condExpr _ _ _ reg => { e with regs := (reg, .prim .bool) :: e.regs }
+  | .logicCond _ _ _ reg => { e with regs := (reg, .prim .bool) :: e.regs }
+  | _ => e
+
+inductive TyBad where
+  | readDecl | constTable | fieldIndex | fieldNonStruct | fieldDecl
+  | opLeft | opRight | opDiffer
+  | calleeTable | argCount | argType | argOperand
+  | letOperand | letType
+  | asgOperand | asgType | asgImmutable | asgDecl
+  | cmpLeft | cmpRight | cmpDiffer | cmpNonPrim
+  | condOperand | retOperand | retType
+  deriving DecidableEq, Repr
+
+def TyBad.msg : TyBad → String
+  | .readDecl => "read-differs-from-declaration"
+  | .constTable => "constant-differs-from-global-table"
+  | .fieldIndex => "field-index-not-in-struct-type"
+  | .fieldNonStruct => "field-read-of-non-struct"
+  | .fieldDecl => "field-read-differs-from-declaration"
+  | .opLeft => "left-operand-type"
+  | .opRight => "right-operand-type"
+  | .opDiffer => "operation-operands-differ"
+  | .calleeTable => "callee-differs-from-global-table"
+  | .argCount => "argument-count"
+  | .argType => "argument-type"
+  | .argOperand => "argument-operand-type"
+  | .letOperand => "initialiser-operand-type"
+  | .letType => "let-type-differs-from-initialiser"
+  | .asgOperand => "assigned-operand-type"
+  | .asgType => "assignment-type"
+  | .asgImmutable => "assignment-to-immutable"
+  | .asgDecl => "assignment-differs-from-declaration"
+  | .cmpLeft => "left-side-type"
+  | .cmpRight => "right-side-type"
+  | .cmpDiffer => "comparison-sides-differ"
+  | .cmpNonPrim => "comparison-of-non-primitive"
+  | .condOperand => "condition-operand-type"
+  | .retOperand => "return-operand-type"
+  | .retType => "return-type-differs-from-result-type"
+
+def badIf (c : Bool) (t : TyBad) : List TyBad := if c then [] else [t]
+
+/-- the checks on one instruction; `cOk` / `fOk`: the constant / function record is the entry of the
+global table under its name -/
+def tyStepBad (cOk : ConstSem → Bool) (fOk : Func → Bool) (resTy : Ty) (e : TyEnv) (i : Instr) : List TyBad :=
+  match i with
+  | .exprValue v _ => badIf (e.declOk v) .readDecl
+  | .exprConst c _ => badIf (cOk c) .constTable
+  | .exprStructValue v idx _ =>
+    match v.ty with
+    | .struct _ _ =>
+      match fieldTy v idx with
+      | some _ => badIf (e.declOk v) .fieldDecl
+      | none => [.fieldIndex]
+    | _ => [.fieldNonStruct]
+  | .exprOp _ l r _ =>
+    badIf (operandOk e l) .opLeft ++ badIf (operandOk e r) .opRight ++ badIf (l.ty == r.ty) .opDiffer
+  | .call f ps _ =>
+    badIf (fOk f) .calleeTable ++ badIf (ps.length == f.params.length) .argCount ++
+    badIf ((ps.zip f.params).all fun (a, t) => a.ty == t) .argType ++ badIf (ps.all (operandOk e)) .argOperand
+  | .letBinding v x => badIf (operandOk e x) .letOperand ++ badIf (v.ty == x.ty) .letType
+  | .binding v x =>
+    badIf (operandOk e x) .asgOperand ++ badIf (v.ty == x.ty) .asgType ++ badIf v.mutable .asgImmutable ++
+    badIf (e.declOk v) .asgDecl
+  | .condExpr l r _ _ =>
+    badIf (operandOk e l) .cmpLeft ++ badIf (operandOk e r) .cmpRight ++ badIf (l.ty == r.ty) .cmpDiffer ++
+    badIf l.ty.isPrim .cmpNonPrim
+  | .ifCondExpr x _ _ => badIf (operandOk e x) .condOperand
+  | .fnReturn x | .fnReturnWithLabel x | .jumpFnReturn x =>
+    badIf (operandOk e x) .retOperand ++ badIf (x.ty == resTy) .retType
+  | _ => []
+
+def typedGo (cOk : ConstSem → Bool) (fOk : Func → Bool) (resTy : Ty) : List Instr → TyEnv → Nat → List (Nat × TyBad)
   | [], _, _ => []
   | i :: rest, e, pos =>
-    let (e, bad) := typedStep funcs consts resTy exts e i pos
-    bad ++ typedGo funcs consts resTy exts rest e (pos + 1)
+    (tyStepBad cOk fOk resTy e i).map (fun b => (pos, b)) ++ typedGo cOk fOk resTy rest (tyStepEnv e i) (pos + 1)
+
+def TyEnv.init : TyEnv := { regs := [], decls := [] }
 
 /-- C04 on one function -/
 def typedStack (funcs : List (Name × Func)) (consts : List (Name × ConstSem)) (f : FnDecl) (stack : List Instr) : List String :=
-  typedGo funcs consts f.result.toTy f.extLeaves stack { regs := [], decls := [] } 0
+  (typedGo (fun c => assocGet c.name consts == some c) (fun fd => assocGet fd.name funcs == some fd)
+    f.result.toTy stack TyEnv.init 0).map fun (pos, b) => s!"pos{pos}:{b.msg}"
 
 end SemVerif
